@@ -1216,6 +1216,42 @@ PROPS["C11"] = {
 
 # properties not claimed yet, with the reason shown in MANIFEST.not_applicable
 NOT_YET = {}
+# ---- C13 x timers: occupancy of the process-wide cleared-timer set (engine timer, host lset) -----------------------
+def lset_gen(tier, seed):
+    q = tier == "quick"
+    return [["gen-exh", 5 if q else 7, "lset"], ["gen-lset", seed, 6000 if q else 300000]]
+
+
+def lset_nontrivial(case, out):
+    # some id was in the set at some step
+    return any(t.startswith("c") and not t.startswith("c/") for t in out.split(" ")[1:])
+
+
+def lset_shape(case, out):
+    toks = out.split(" ")[1:]
+    return (len(case.split(" ")[1]), tuple(sorted(set((len(t.split("/")[0]) - 1, len(t.split("/")[-1]) - 1) for t in toks if "/" in t))))
+
+
+PROPS["C13"]["streams"].append(Stream("lset", "timer", "timer", lset_gen, nontrivial=lset_nontrivial, shape=lset_shape,
+                                      shrink=lambda c: timer_shrinks(c)))
+PROPS["C13"]["rule"] += (" lset stream (engine timer): 1..9 legacy capability timers (caps.time.notify_after / notify_at / clear) in one real "
+                         "Core; actions per timer: start, start+clear in one update, clear(id) (before, while and after the timer is pending, "
+                         "repeated), answer (right / foreign id / other kind), drop the request, answer the Clear notification, idle call. "
+                         "ENUMERATED: every sequence for one timer up to length 5 (quick) / 7 (thorough); SAMPLED: interleaved set / fire / clear "
+                         "cycles over up to 9 timers and random sequences of length 3..26 (6 000 quick, 300 000 thorough). Observation after "
+                         "EVERY step, read through the crux_verif hook crux_time::verif_cleared_timer_ids: which of the case's timers have "
+                         "their id in the process-wide cleared-timer set, and which timers are outstanding (started, callback not yet run); "
+                         "compared with the model's set (M.Timer LWorld.cleared) step by step; oracle clause "
+                         "cleared-set-retains-finished-timer: the set holds only ids of outstanding timers. non-trivial = the set was "
+                         "non-empty at some step.")
+PROPS["C13"]["level_text"] += (" CLEARED-TIMER SET over whole runs (cleared_timer_set_bounded_by_outstanding_timers, finished_timer_is_forgotten, "
+                               "cleared_timer_set_bounded_mixed; invariants WInv + CB, Lemmas/Timer/ClearedSet.lean): for every number of legacy "
+                               "timers and EVERY history of starts, clears, answers, dropped requests and idle calls - and for apps that use both "
+                               "timer APIs - every id the process-wide set remembers belongs to a timer whose future is still alive, no id twice: "
+                               "the size of the set never exceeds the number of outstanding timers, and nothing of a finished timer remains. "
+                               "(False of the pinned code before the repair `fix: forget a cleared timer id ...`: start, answer, clear left the "
+                               "id in the set for ever - found by this stream, replayed as `lset A s0 f0 c0`.)")
+
 # ---- C18 (engine timer) -----------------------------------------------------------------------------------------
 def timer_gen(tier, seed):
     if tier == "quick":
@@ -1325,7 +1361,7 @@ ENGINE_TEXT = {
     "kv": "real crux_kv calls (capability + command API; Core and bincode Bridge hosts) vs M.Kv (Lean), oracle S.Kv",
     "conv": "differential driver for crux_time::protocol conversions (Rust) vs M.Conv (Lean), oracle S.Conv",
 }
-HOOK_COMMITS = ["3b3ccf0", "fd94595", "1055c0e", "261bd7a", "aabe6ae", "aa30ac4", "df0e2e7"]
+HOOK_COMMITS = ["3b3ccf0", "fd94595", "1055c0e", "261bd7a", "aabe6ae", "aa30ac4", "df0e2e7", "e58b8d1"]
 
 # Only these are listed in MANIFEST.json as claimed (the lead adds an id here once its check has been reviewed and passes).
 CLAIMED = ["C%02d" % i for i in range(1, 21)]
